@@ -218,9 +218,10 @@ pub fn gen_replay(seed: u64, focus_arg: &str) -> Replay {
     let zero_data = rng.chance(25);
     let even_garbage = rng.chance(15);
     let rec_alias = rng.chance(20);
+    let persist = rng.chance(50);
     let enumerate_faults = focus == "C02" || rng.chance(30);
     let enumerate_ranges = if focus == "C10" { rng.chance(50) } else { rng.chance(4) };
-    let config = Config { view, alloc, garbage_seed: rng.next(), p4_frame, zone_seed: zones.seed, cr3_low, pcide, enumerate_faults, enumerate_ranges, tlb, zero_data, even_garbage, rec_alias };
+    let config = Config { view, alloc, garbage_seed: rng.next(), p4_frame, zone_seed: zones.seed, cr3_low, pcide, enumerate_faults, enumerate_ranges, tlb, zero_data, even_garbage, rec_alias, persist };
 
     let len = match rng.below(100) {
         0..=49 => rng.range(3, 12),
